@@ -9,37 +9,37 @@ NOT_APPLICABLE = {}
 CHECKS = {
     "C06": dict(
         technique="runtime monitoring: soundness oracle on every ACCEPTED input (OpenSSL verification over independently extracted CRI bytes and key) over base requests from rcgen and OpenSSL, exhaustive single-bit flips and structure-aware mutants; decode-back of the issued certificate",
-        text="Requests made by rcgen for every key family and by OpenSSL (P-384+SHA-256, P-256+SHA-384/512, RSA with SHA-1/224/384/512/SHA3, P-521, secp256k1, Ed448, RSA-1024, unsupported and unknown extensions, repeated subject attributes), every single-bit flip of selected requests, tens of thousands of TLV-level and byte-level mutants, and thousands of mutants of the to-be-signed part that are RE-SIGNED with the requester's key (validly signed odd requests) are offered to from_der. For every accepted input the oracle re-extracts certificationRequestInfo, SubjectPublicKeyInfo and signature with its own tolerant reader and requires OpenSSL to verify; the request must not contain anything rcgen does not carry over; the certificate issued from it must embed the request's SPKI byte-for-byte and (for requests that are strictly valid DER) its subject / SAN / KU / EKU. Conservation: offered = accepted + rejected + panicked.",
+        text="Requests made by rcgen for every key family and by OpenSSL (P-384+SHA-256, P-256+SHA-384/512, RSA with SHA-1/224/384/512/SHA3, P-521, secp256k1, Ed448, RSA-1024, unsupported and unknown extensions, repeated subject attributes), every single-bit flip of selected requests, tens of thousands of TLV-level and byte-level mutants, and thousands of mutants of the to-be-signed part that are RE-SIGNED with the requester's key (validly signed odd requests) are offered to from_der. For every accepted input the oracle re-extracts certificationRequestInfo, SubjectPublicKeyInfo and signature with its own tolerant reader and requires OpenSSL to verify; the request must not contain anything rcgen does not carry over; the certificate issued from it must embed the request's SPKI byte-for-byte and (for requests that are strictly valid DER) its subject / SAN / KU / EKU. Conservation: offered = accepted + rejected + panicked. OpenSSL-made requests carry otherName SANs with UTF8/IA5/Printable/BMP/OCTET STRING values; the issued SAN is compared byte for byte.",
         design_ref="DESIGN.md 5/C06",
         note="Rejections are never judged. The unsigned wrapper (outer SEQUENCE, AlgorithmIdentifier tag bits, trailing elements) is read as tolerantly as x509-parser reads it, because it does not touch signed bytes, key or signature.",
     ),
     "C10": dict(
         technique="runtime monitoring: unwind observer (catch_unwind + panic-location hook), per-call watchdog, process-death attribution by marker file, over structure-aware mutation of a corpus made in the run and hostile parameter generators; ASan / Miri layers in the thorough tier",
-        text="Every parsing entry point (CA import DER/PEM, CSR DER/PEM, all nine private-key loaders x every algorithm, SPKI DER/PEM, string constructors, CIDR text, OID lookups) is fed the corpus (rcgen and OpenSSL certificates with every extension kind, multi-valued RDNs, CSRs, PKCS#8 v1/v2, SEC1, PKCS#1, SPKIs and their PEM texts), >100k TLV-level/byte-level mutants, PEM text mutants and random bytes; whatever a parser accepts is pushed on through self_signed / signed_by / serialize_request and the accessors. Every generation entry point is fed hostile values (non-ASCII in String fields, OID lists of any length/content, years -9999..=9999 with any offset, empty and huge vectors, arbitrary pre-encoded bytes, remote keys returning empty or giant signatures and public keys). A panic, a process killed by a signal (reproduced single-threaded and attributed by marker) is a violation keyed by entry point and panic location; a call exceeding 20 s is inconclusive.",
+        text="Every parsing entry point (CA import DER/PEM, CSR DER/PEM, all nine private-key loaders x every algorithm, SPKI DER/PEM, string constructors, CIDR text, OID lookups) is fed the corpus (rcgen and OpenSSL certificates with every extension kind, multi-valued RDNs, CSRs, PKCS#8 v1/v2, SEC1, PKCS#1, SPKIs and their PEM texts), >100k TLV-level/byte-level mutants, PEM text mutants and random bytes; whatever a parser accepts is pushed on through self_signed / signed_by / serialize_request and the accessors. Every generation entry point is fed hostile values (non-ASCII in String fields, OID lists of any length/content, years -9999..=9999 with any offset, empty and huge vectors, arbitrary pre-encoded bytes, remote keys returning empty or giant signatures and public keys). A panic, a process killed by a signal (reproduced single-threaded and attributed by marker) is a violation keyed by entry point and panic location; a call exceeding 20 s is inconclusive. Hostile parameter sets are half all-hostile, half hostile in one or two dimensions; a directed enumeration of 7920 date boundary cases (year ends x offsets x fields); every string type through every constructor, whatever is accepted goes through generation.",
         design_ref="DESIGN.md 5/C10",
         note="The three documented panics (ACME digest length, serialising a remote key, impossible calendar date) are never requested. Non-termination is restated as a per-call wall budget.",
     ),
     "C11": dict(
         technique="runtime monitoring: round-trip differential with OpenSSL as independent key decoder and signature verifier over every (key family x loading route x reload route) and every (key, requested algorithm, explicit loader) pair",
-        text="Fresh keys of every family (back-end generated, OpenSSL generated PKCS#8 v1, Ed25519 v1/v2, RSA 2048/3072/4096, aws: P-521, generated RSA, SEC1/PKCS#1) are loaded through all eight routes, saved by all three serialisers, reloaded through every route; public key (OpenSSL's reading of the private key), key type, algorithm, exported SPKI (bytes, curve / NULL parameters via derx, parse-back through SubjectPublicKeyInfo::from_der/pem) and a signature verified by OpenSSL under the ORIGINAL public key are compared. All mismatched (key, algorithm) pairs must return Err; fitting ones Ok. Algorithm ==/Hash/from_oid consistency over all pairs.",
+        text="Fresh keys of every family (back-end generated, OpenSSL generated PKCS#8 v1, Ed25519 v1/v2, RSA 2048/3072/4096, aws: P-521, generated RSA, SEC1/PKCS#1) are loaded through all eight routes, saved by all three serialisers, reloaded through every route; public key (OpenSSL's reading of the private key), key type, algorithm, exported SPKI (bytes, curve / NULL parameters via derx, parse-back through SubjectPublicKeyInfo::from_der/pem) and a signature verified by OpenSSL under the ORIGINAL public key are compared. All mismatched (key, algorithm) pairs must return Err; fitting ones Ok. Algorithm ==/Hash/from_oid consistency over all pairs. aws-lc-rs: SEC1/PKCS#1 keys through five routes (from_der_and_sign_algo, TryFrom<Vec<u8>>, TryFrom<&[u8]>, labelled PEM with and without algorithm) and reloaded through serialize_der/serialize_pem.",
         design_ref="DESIGN.md 5/C11",
         note="For RSA the hash is not a property of the key: auto-detecting routes are only required to yield an RSA algorithm.",
     ),
     "C12": dict(
         technique="runtime monitoring: independent path validators (OpenSSL X509_verify_cert, webpki verify_for_usage) as judges of chains built by rcgen, expected verdict from an RFC 5280 section 6 model of the parameters",
-        text="Chains root -> [0..3 intermediates] -> leaf over directed single-dimension cases (CA flag variants x position, path length {none,0,1,2} x position x depth, 7 verification instants x 3 validity windows, permitted/excluded DNS subtrees x 7 leaf names x 2 positions, IPv4/IPv6 prefixes with addresses flipped at the last masked / first free bit, 8 leaf EKU sets x 2 purposes, 10 CA key-usage sets x 2 positions) and random multi-dimension cases; both validators must give the verdict the parameters imply.",
+        text="Chains root -> [0..3 intermediates] -> leaf over directed single-dimension cases (CA flag variants x position, path length {none,0,1,2} x position x depth, 7 verification instants x 3 validity windows, permitted/excluded DNS subtrees x 7 leaf names x 2 positions, IPv4/IPv6 prefixes with addresses flipped at the last masked / first free bit, 8 leaf EKU sets x 2 purposes, 10 CA key-usage sets x 2 positions) and random multi-dimension cases; both validators must give the verdict the parameters imply. Every validity window in five time flavours (sub-second parts, ends in 2055, non-UTC offsets); chains with authority key identifiers and different key-identifier methods down the chain; three issuance routes.",
         design_ref="DESIGN.md 5/C12",
         note="Judge table: trust-anchor CA flag / path length / validity and CA key usage are judged by OpenSSL only (webpki does not evaluate them); the notAfter instant itself is judged by webpki only (OpenSSL treats it as expired).",
     ),
     "C14": dict(
         technique="runtime monitoring: strict RFC 7468 decoder written from the RFC (own base64) as oracle, OpenSSL PEM readers as lenient cross-check, rcgen's own loaders for the round trip, over a byte-by-byte size sweep",
-        text="Certificates, CSRs and CRLs whose DER length grows one byte at a time over >= 160 consecutive lengths (small and large variants), private and public keys of every family and RSA size: label, 64-character lines, canonical padding, LF line ending, nothing before or after, payload equal to the DER accessor; loaders recover the same bytes. The residues of the DER lengths modulo 3 and 48 actually seen are recorded; a sweep missing a residue makes the run inconclusive.",
+        text="Certificates, CSRs and CRLs whose DER length grows one byte at a time over >= 160 consecutive lengths (small and large variants), private and public keys of every family and RSA size: label, 64-character lines, canonical padding, LF line ending, nothing before or after, payload equal to the DER accessor; loaders recover the same bytes. The residues of the DER lengths modulo 3 and 48 actually seen are recorded; a sweep missing a residue makes the run inconclusive. Private-key PEM for every key through all loading routes (label must fit the content: PKCS#8 shape under PRIVATE KEY); a certificate issued for the SubjectPublicKeyInfo loaded from PEM must carry exactly public_key_der().",
         design_ref="DESIGN.md 5/C14",
         note="Key sizes are discrete, so key PEMs cover only some residues mod 48 (reported in the evidence).",
     ),
     "C15": dict(
         technique="runtime monitoring: recorded event log (case, phase, thread, round, process, hash of TBS, hash of output) checked online per process and offline across processes: all executions of a case agree; exactly-once accounting; fingerprints of shared keys/issuers before = after; TSan and Miri layers in the thorough tier",
-        text="A table of 200 (quick) / 2000 certificate, CSR and CRL parameter sets with fixed keys (names of 6-8 attributes, >= 3 EKUs in CSRs, every key-id method) is executed 3x back to back, again after unrelated API calls, then by 4 and 16 (thorough: 2..64) barrier-released threads sharing one set of KeyPairs and issuer Certificates, each in its own seeded order for several rounds, in 6 (thorough 18) fresh processes under both back ends. TBS bytes (complete output for Ed25519 / RSA) must be identical across all of it; returned params equal the input; shared keys and issuers report the same content afterwards. The number of executions of the same case that actually overlapped in time on different threads is measured and reported.",
+        text="A table of 200 (quick) / 2000 certificate, CSR and CRL parameter sets with fixed keys (names of 6-8 attributes, >= 3 EKUs in CSRs, every key-id method) is executed 3x back to back, again after unrelated API calls, then by 4 and 16 (thorough: 2..64) barrier-released threads sharing one set of KeyPairs and issuer Certificates, each in its own seeded order for several rounds, in 6 (thorough 18) fresh processes under both back ends. TBS bytes (complete output for Ed25519 / RSA) must be identical across all of it; returned params equal the input; shared keys and issuers report the same content afterwards. The number of executions of the same case that actually overlapped in time on different threads is measured and reported. CRL dates with sub-second parts and offsets; an Ed25519 key behind RemoteKeyPair whose signer pauses for a data-dependent time; RSA-3072 and PKCS#1-loaded (aws) keys in the table.",
         design_ref="DESIGN.md 5/C15",
         note="'For all schedules' is sampled; the evidence says how many overlapping same-case pairs were observed. Safe Rust excludes data races in rcgen itself; TSan/Miri watch the dependencies.",
     ),
@@ -51,7 +51,7 @@ CHECKS = {
     ),
     "C18": dict(
         technique="runtime monitoring of the real binary: generated option sets, fresh directory per invocation, exit status / stderr / directory listing / strace of attempted creations, files judged by derx, pemx, OpenSSL and webpki",
-        text="rustls-cert-gen (both back ends) is run with every algorithm flag, 0..12 names mixing DNS / IPv4 / IPv6 (compressed, expanded, v4-mapped, IP look-alikes), ASCII / UTF-8 / empty / long CN, country and organisation, both purpose flags, base names with dots, spaces and UTF-8, existing / new / nested output directories. Valid sets: exit 0, exactly the four files, strict PEM, keys match certificates, chain validates under OpenSSL and webpki, CA is a CA with keyCertSign and cRLSign, end-entity carries exactly the names (IP literals as iPAddress), CN and purposes. Invalid sets (non-printable country, non-ASCII SAN, unsupported algorithm): non-zero exit, no panic, no file.",
+        text="rustls-cert-gen (both back ends) is run with every algorithm flag, 0..12 names mixing DNS / IPv4 / IPv6 (compressed, expanded, v4-mapped, IP look-alikes), ASCII / UTF-8 / empty / long CN, country and organisation, both purpose flags, base names with dots, spaces and UTF-8, existing / new / nested output directories. Valid sets: exit 0, exactly the four files, strict PEM, keys match certificates, chain validates under OpenSSL and webpki, CA is a CA with keyCertSign and cRLSign, end-entity carries exactly the names (IP literals as iPAddress), CN and purposes. Invalid sets (non-printable country, non-ASCII SAN, unsupported algorithm): non-zero exit, no panic, no file. IPv6 names in their longest spellings (45 characters, embedded dotted quad), upper case and full groups.",
         design_ref="DESIGN.md 5/C18",
         note="Known finding: base names X and X.key collide on X.key.pem (directed probe, reported as KNOWN-FINDING); near misses (X / X.keys, X.pem / X) are checked as ordinary valid sets.",
     ),
@@ -63,25 +63,25 @@ CHECKS = {
     ),
     "C01": dict(
         technique="runtime monitoring: differential oracle (OpenSSL EVP_DigestVerify over the TBS bytes cut out by an independent DER reader), recording remote signer, fault injection at every sign call",
-        text="Certificates (self-signed, issuer-signed, three public-key sources), CSRs and CRLs from enumerated and random parameter sets are produced with every pool key (RSA 2048-4096 x SHA-256/384/512, P-256/384/521, Ed25519; generated by the back end, by OpenSSL, loaded through every entry point; local and remote) under ring and aws-lc-rs. For each artefact the to-be-signed bytes are cut out with derx and the signature is verified by OpenSSL under the signer's SubjectPublicKeyInfo; inner/outer AlgorithmIdentifier bytes are compared with a table transcribed from the RFCs; recording remote signers must have been asked exactly once for exactly those bytes; a remote signer failing at its n-th call must produce Err and no artefact.",
+        text="Certificates (self-signed, issuer-signed, three public-key sources), CSRs and CRLs from enumerated and random parameter sets are produced with every pool key (RSA 2048-4096 x SHA-256/384/512, P-256/384/521, Ed25519; generated by the back end, by OpenSSL, loaded through every entry point; local and remote) under ring and aws-lc-rs. For each artefact the to-be-signed bytes are cut out with derx and the signature is verified by OpenSSL under the signer's SubjectPublicKeyInfo; inner/outer AlgorithmIdentifier bytes are compared with a table transcribed from the RFCs; recording remote signers must have been asked exactly once for exactly those bytes; a remote signer failing at its n-th call must produce Err and no artefact. Certificates are issued through all three routes (key pair, SubjectPublicKeyInfo, parsed CSR -> CertificateSigningRequestParams::signed_by); aws-lc-rs: RSA keys generated by rcgen under each digest and keys arriving in SEC1/PKCS#1 through five routes.",
         design_ref="DESIGN.md 5/C01",
         note="Trusted: OpenSSL signature verification and key decoding; derx split of the outer SEQUENCE. A misbehaving remote signer (wrong bytes) is the caller's fault and not asserted.",
     ),
     "C02": dict(
         technique="runtime monitoring: reference-model monitor (ParamSpec -> expected content) over two independent decoders (derx schema decoder, OpenSSL accessors)",
-        text="Every subset of the extension-bearing fields x 3 IsCa kinds (384), all 512 key-usage subsets, all prefix lengths 0..=255 x 2 families x 4 CIDR constructors, all 256 path lengths, the 4x4 key-identifier grid, every pool key x 3 public-key sources, artefacts beyond 64 KiB, the convenience entry points (generate_simple_self_signed, CertificateParams::new, accessors) and thousands of random parameter sets are built into real certificates; the decoded certificate must contain exactly the requested serial, validity, subject (types, string kinds, order), SubjectPublicKeyInfo, SAN, KU, EKU, BC/pathLen, NC (address/mask), CRL-DP, AKI, custom extensions (value and criticality), a SKI equal to the configured derivation (hashes computed by OpenSSL), nothing else; cert.params() and key_identifier() must agree with the DER.",
+        text="Every subset of the extension-bearing fields x 3 IsCa kinds (384), all 512 key-usage subsets, all prefix lengths 0..=255 x 2 families x 4 CIDR constructors, all 256 path lengths, the 4x4 key-identifier grid, every pool key x 3 public-key sources, artefacts beyond 64 KiB, the convenience entry points (generate_simple_self_signed, CertificateParams::new, accessors) and thousands of random parameter sets are built into real certificates; the decoded certificate must contain exactly the requested serial, validity, subject (types, string kinds, order), SubjectPublicKeyInfo, SAN, KU, EKU, BC/pathLen, NC (address/mask), CRL-DP, AKI, custom extensions (value and criticality), a SKI equal to the configured derivation (hashes computed by OpenSSL), nothing else; cert.params() and key_identifier() must agree with the DER. Issuance through all three routes incl. CertificateSigningRequestParams::signed_by; half of all names are reached through an edit history (decoy removed, value replaced); SAN/name-constraint host names with upper case, wildcard, leading/trailing/double dots, punycode.",
         design_ref="DESIGN.md 5/C02",
         note="Order of extensions / SAN entries / subtrees is not asserted (multisets); names are order-sensitive. Expectations never go through rcgen or x509-parser.",
     ),
     "C03": dict(
         technique="runtime monitoring: byte-level invariants (issuer==subject bytes, AKI==SKI) plus OpenSSL X509_verify_cert and webpki path validation as independent judges, over rcgen-made, re-imported and OpenSSL-made issuers",
-        text="Leaves are issued from (a) rcgen-generated CAs with names of every shape and all 4x4 key-id method pairs, (b) rcgen CAs - roots and intermediates carrying both AKI and SKI - exported, imported from DER/PEM and re-created with the same key, (c) CA certificates built by OpenSSL (repeated attribute types, several string types, with/without SKI, multi-valued RDNs via the CLI) and imported. Ok from import obliges: issuer bytes identical to the ORIGINAL certificate's subject, AKI equal to its SKI, OpenSSL and webpki accept the chain at a common validity time; Err from import is accepted.",
+        text="Leaves are issued from (a) rcgen-generated CAs with names of every shape and all 4x4 key-id method pairs, (b) rcgen CAs - roots and intermediates carrying both AKI and SKI - exported, imported from DER/PEM and re-created with the same key, (c) CA certificates built by OpenSSL (repeated attribute types, several string types, with/without SKI, multi-valued RDNs via the CLI) and imported. Ok from import obliges: issuer bytes identical to the ORIGINAL certificate's subject, AKI equal to its SKI, OpenSSL and webpki accept the chain at a common validity time; Err from import is accepted. Leaves are issued through all three routes; OpenSSL-made CAs have shuffled extension order, T61 values with octets >= 0x80, missing cRLSign; a foreign issuer certificate is read leniently by the oracle (names as they are).",
         design_ref="DESIGN.md 5/C03",
         note="Validators are asked only when the issuer is a CA with non-empty name and cert-signing usage, leaf has no unknown critical extension; webpki only for algorithms its ring provider supports.",
     ),
     "C04": dict(
         technique="runtime monitoring: strict DER canonicity walker (written from X.690/RFC 5280) over every byte rcgen emits, including extension contents and ECDSA signature values",
-        text="All certificates, CSRs and CRLs of the C02/C07/C08 workloads (every key-usage subset, serial/CRL-number shapes, attribute orderings, IsCa kinds, time forms, string kinds) and every exported SubjectPublicKeyInfo are walked: minimal lengths/tags, minimal INTEGER and OID, BOOLEAN 0xFF, DEFAULT omitted, BIT STRING padding and named-bit lists, SET OF order, string alphabets, exact time forms, no trailing bytes; caller-supplied DER must appear byte-for-byte.",
+        text="All certificates, CSRs and CRLs of the C02/C07/C08 workloads (every key-usage subset, serial/CRL-number shapes, attribute orderings, IsCa kinds, time forms, string kinds) and every exported SubjectPublicKeyInfo are walked: minimal lengths/tags, minimal INTEGER and OID, BOOLEAN 0xFF, DEFAULT omitted, BIT STRING padding and named-bit lists, SET OF order, string alphabets, exact time forms, no trailing bytes; caller-supplied DER must appear byte-for-byte. Further workloads: names imported from foreign CA certificates/CSRs holding every single byte under each string type (what is accepted is walked after re-issue, leaf, CRL, CSR-derived certificate); SubjectPublicKeyInfo handed over with non-minimal lengths; every algorithm SignatureAlgorithm::from_oid hands out for 14 well-known OIDs (RSASSA-PSS parameter DEFAULTs known to the walker); every character each string constructor accepts.",
         design_ref="DESIGN.md 5/C04",
         note="The walker rejects a fixed list of hand-made non-canonical encodings in its unit tests; OpenSSL is not an oracle here (BER-tolerant).",
     ),
@@ -93,37 +93,37 @@ CHECKS = {
     ),
     "C07": dict(
         technique="runtime monitoring: reference-model monitor over an independent RFC 2986 decoder and OpenSSL X509_REQ; refusal lattice; parse-back differential",
-        text="CSRs for every subset of {KU, SAN, EKU, custom} x 0..3 attributes, all 512 key-usage subsets, all 24 orderings of 4 attributes (with duplicate OIDs and duplicate attributes), every pool key, random sets; the decoded request must carry subject, SPKI, exactly one extension request with exactly the requested extensions, every caller attribute byte-for-byte; every non-empty subset of the five inexpressible fields (31 x 4 variants) must be refused; parse-back within documented support must return the same subject, SANs, KU/EKU sets, key and algorithm.",
+        text="CSRs for every subset of {KU, SAN, EKU, custom} x 0..3 attributes, all 512 key-usage subsets, all 24 orderings of 4 attributes (with duplicate OIDs and duplicate attributes), every pool key, random sets; the decoded request must carry subject, SPKI, exactly one extension request with exactly the requested extensions, every caller attribute byte-for-byte; every non-empty subset of the five inexpressible fields (31 x 4 variants) must be refused; parse-back within documented support must return the same subject, SANs, KU/EKU sets, key and algorithm. A second trip (parse -> write -> parse) must reproduce the parsed parameters.",
         design_ref="DESIGN.md 5/C07",
         note="Known finding (P-521 requests cannot be parsed back under aws-lc-rs) is reproduced and reported as KNOWN-FINDING.",
     ),
     "C08": dict(
         technique="runtime monitoring: reference-model monitor over an independent CRL decoder; OpenSSL X509_CRL_get0_by_serial and webpki find_serial as independent revocation checkers; refusal predicates computed on whole seconds",
-        text="CRLs with 0..200 entries, the full reason x invalidity-date lattice, serial/CRL-number shapes, both scopes, four key-id methods, every issuer key, all 512 issuer key-usage sets, and thisUpdate/nextUpdate pairs including equality, reversal and sub-second differences; decoded issuer bytes, instants, CRL number, AKI (method of the CRL applied to the issuer key), IDP, entries (serial, time, reason with absent==unspecified, invalidity date as GeneralizedTime) must match; listed <=> revoked under OpenSSL X509_CRL_get0_by_serial and webpki find_serial, and for eligible cases under full path validation with CRL checking (OpenSSL CRL_CHECK, webpki RevocationOptions); requests whose encoded nextUpdate <= thisUpdate or whose issuer lacks cRLSign must be refused.",
+        text="CRLs with 0..200 entries, the full reason x invalidity-date lattice, serial/CRL-number shapes, both scopes, four key-id methods, every issuer key, all 512 issuer key-usage sets, and thisUpdate/nextUpdate pairs including equality, reversal and sub-second differences; decoded issuer bytes, instants, CRL number, AKI (method of the CRL applied to the issuer key), IDP, entries (serial, time, reason with absent==unspecified, invalidity date as GeneralizedTime) must match; listed <=> revoked under OpenSSL X509_CRL_get0_by_serial and webpki find_serial, and for eligible cases under full path validation with CRL checking (OpenSSL CRL_CHECK, webpki RevocationOptions); requests whose encoded nextUpdate <= thisUpdate or whose issuer lacks cRLSign must be refused. CRLs under *imported* issuers (OpenSSL-made CA, extensions in any order) must be refused exactly when the issuer certificate lacks cRLSign.",
         design_ref="DESIGN.md 5/C08",
         note="Entries are compared as a multiset. webpki is only asked for CRLs it can parse (CRL number <= 20 octets).",
     ),
     "C17": dict(
         technique="runtime monitoring: round-trip differential (ParamSpec -> certificate -> import -> field-wise comparison -> re-issue -> decode) plus OpenSSL-made CA certificates with known content",
-        text="All 512 key-usage subsets, 256 path lengths, 2x256 prefixes x 4 constructors and thousands of random importable parameter sets are generated, imported from DER and PEM and compared field by field (subject, CA flag/path length, KU set, standard EKU set, SANs, subtrees, serial, validity, SKI as pre-specified key id); re-issuing with the same key must reproduce those fields in the DER; OpenSSL-built CAs with known fields are imported and compared as well.",
+        text="All 512 key-usage subsets, 256 path lengths, 2x256 prefixes x 4 constructors and thousands of random importable parameter sets are generated, imported from DER and PEM and compared field by field (subject, CA flag/path length, KU set, standard EKU set, SANs, subtrees, serial, validity, SKI as pre-specified key id); re-issuing with the same key must reproduce those fields in the DER; OpenSSL-built CAs with known fields are imported and compared as well. A second import of the re-issued certificate must give the same parameters again.",
         design_ref="DESIGN.md 5/C17",
         note="Custom extensions, non-standard EKUs and CRL distribution points are documented as not imported and are not asserted.",
     ),
     "C09": dict(
         technique="runtime monitoring: reference-model monitor (independent civil-time model) over generated boundary sweeps; OpenSSL ASN1_TIME as second reader",
-        text="Every (instant, offset, nanosecond) value of the boundary sweeps (every step within +-26 h of 1950, 2050, year 0 and year 9999, x 64 offsets) and of a random sample is pushed through notBefore/notAfter/thisUpdate/nextUpdate/revocationDate of real certificates and CRLs; a strict DER reader extracts tag and text and a 20-line model decides form, text and instant; equal instants under different offsets must give equal bytes.",
+        text="Every (instant, offset, nanosecond) value of the boundary sweeps (every step within +-26 h of 1950, 2050, year 0 and year 9999, x 64 offsets) and of a random sample is pushed through notBefore/notAfter/thisUpdate/nextUpdate/revocationDate of real certificates and CRLs; a strict DER reader extracts tag and text and a 20-line model decides form, text and instant; equal instants under different offsets must give equal bytes. The invalidityDate entry extension is checked as a sixth field (always GeneralizedTime).",
         design_ref="DESIGN.md 5/C09",
         note="Trusted: harness civil-time arithmetic (unit-tested), derx reader, OpenSSL on a sample. Inputs whose UTC year is outside 0..=9999 belong to C10.",
     ),
     "C13": dict(
         technique="runtime monitoring: exhaustive alphabet sweep against predicates transcribed from the property; independent UTF-16/32 codecs; decode-back of serialised certificates",
-        text="All 1,112,064 scalar values x 5 string types x every text constructor, every 16-bit unit / every 32-bit value up to 0x110400 for the byte-level constructors, random mixed strings, and every accepted character serialised into a subject attribute (and SANs for IA5) and decoded back with an independent DER reader.",
+        text="All 1,112,064 scalar values x 5 string types x every text constructor, every 16-bit unit / every 32-bit value up to 0x110400 for the byte-level constructors, random mixed strings, and every accepted character serialised into a subject attribute (and SANs for IA5) and decoded back with an independent DER reader. Every accepted character alone/first/last/middle/doubled; string values arriving through the import path: arbitrary content octets under each string tag patched into a CA certificate (admitted iff well-formed, stored and written back octet for octet).",
         design_ref="DESIGN.md 5/C13",
         note="Alphabets are those stated in the property (TeletexString = U+0020..U+007F). Multi-character behaviour is sampled, single-character behaviour is enumerated.",
     ),
     "C20": dict(
         technique="runtime monitoring: executable sequential model (ordered Vec) checked after every step of bounded-exhaustive and random edit histories; decode-back of certificates built from reached states",
-        text="All push/remove histories up to length 6 (quick) / 7 (thorough) over 4 attribute types x 2 values are executed against the real DistinguishedName and a Vec model, comparing iter(), get() for every type, remove() results, equality, and the subject RDNSequence of certificates built from the states; random histories up to length 200 over 12 types and all six value kinds.",
+        text="All push/remove histories up to length 6 (quick) / 7 (thorough) over 4 attribute types x 2 values are executed against the real DistinguishedName and a Vec model, comparing iter(), get() for every type, remove() results, equality, and the subject RDNSequence of certificates built from the states; random histories up to length 200 over 12 types and all six value kinds. Histories that start from a name imported from a CA certificate or CSR, with the certificate subject checked after every step.",
         design_ref="DESIGN.md 5/C20",
         note="Model = insertion-ordered association list as stated in the property. CustomDnType([2,5,4,3]) and CommonName are distinct attribute types for the API and are modelled as such.",
     ),
